@@ -6,7 +6,9 @@ import random
 import numpy as np
 
 SINGLE = ["h", "t", "s", "sx", "x", "y", "z", "sdg", "tdg", ("rx", 0.7), ("ry", 1.1), ("rz", 0.3), ("p", 0.5), None, None,
-          ("rx", -0.9), ("ry", -2.3), ("rz", -1.7), ("p", -0.8), ("rx", 7.9), ("ry", 9.1), ("rz", 11.0), ("p", 6.9)]
+          ("rx", -0.9), ("ry", -2.3), ("rz", -1.7), ("p", -0.8), ("rx", 7.9), ("ry", 9.1), ("rz", 11.0), ("p", 6.9),
+          # angles that differ from the ones above in the fifth decimal (anything keyed on a rounded angle confuses them)
+          ("rx", 0.70003), ("ry", 1.10004), ("rz", 0.29997), ("p", 0.50002), ("rx", 0.69996)]
 
 
 def build_qc(gates, nq, seed):
